@@ -134,7 +134,7 @@ def cases(seed, tier):
                     "first": ["components", "component_mapping", "roots", "component"][(i // 2) % 4], "seed": rng.randrange(2 ** 31)})
     for i in range(n_pq):
         out.append({"gen": "pq_random", "len": rng.randrange(1, maxlen + 1), "seed": rng.randrange(2 ** 31),
-                    "prio": ["int", "float", "ties", "inf", "mixed"][i % 5]})
+                    "prio": ["int", "float", "ties", "inf", "mixed", "bigint"][i % 6]})
     # bounded exhaustive: union-find histories over 3 elements; queue histories over 4 priorities
     uf_len = 3 if tier == "quick" else 4
     alphabet = _uf_alphabet()
@@ -357,6 +357,9 @@ def _gen_pq_ops(rng, kind, length):
                 p = rng.randrange(-100, 100)
             elif kind == "float":
                 p = rng.uniform(-10, 10)
+            elif kind == "bigint":
+                # exact integers beyond 2**53 that differ by less than the spacing of doubles there (time stamps in ns, 64-bit keys)
+                p = (1 << 60) + rng.randrange(-40, 40) if rng.random() < 0.8 else -(1 << 62) + rng.randrange(0, 9)
             elif kind == "ties":
                 p = rng.choice([0, 1, 1.0, 2, -1, 0.0])
             elif kind == "inf":
